@@ -6,7 +6,7 @@ import itertools
 from hypothesis import strategies as st
 
 from .. import widths
-from ..cells import build, cells, cells_of_desc, show
+from ..cells import build_any, cells, cells_of_desc, show
 from ..common import Res, call, exc_str, hyp_campaign
 from ..widths import cw, total
 from .c10 import FMTS, SYMS, layouts
@@ -118,7 +118,7 @@ def check(res, f, src, columns, desc, run_ends):
 def run_case(case):
     res = Res()
     desc = case["desc"]
-    f = build(desc, "chunks")
+    f = build_any(desc, case.get("build", "chunks"), case.get("obs", 0))
     src = cells_of_desc(desc)
     run_ends, acc = set(), 0
     for t, a in desc[:-1]:
@@ -140,9 +140,15 @@ def run_case(case):
 def strategy():
     alpha = "ab" + "Ｅ中" + "̤́"
     run = st.tuples(st.text(alphabet=alpha, min_size=0, max_size=7), st.sampled_from(FMTS)).map(list)
-    return st.fixed_dictionaries(
-        {"desc": st.lists(run, min_size=1, max_size=5), "columns": st.lists(st.integers(2, 9), min_size=1, max_size=3, unique=True)}
-    )
+    long_run = st.tuples(st.text(alphabet=alpha + "aaab", min_size=20, max_size=150), st.sampled_from(FMTS)).map(list)
+    descs = st.one_of(st.lists(run, min_size=1, max_size=5), st.lists(run, min_size=1, max_size=5), st.lists(run, min_size=8, max_size=70),
+                      st.lists(long_run, min_size=1, max_size=3))
+    cols = st.one_of(st.integers(2, 9), st.integers(2, 9), st.sampled_from([10, 16, 20, 40, 64, 79, 80, 81, 132]))
+    from ..gen import OBS
+
+    rep = st.tuples(st.lists(run, min_size=1, max_size=3), st.integers(2, 3)).map(lambda t: [list(r) for r in t[0]] * t[1])
+    return st.fixed_dictionaries({"desc": st.one_of(descs, descs, descs, rep), "columns": st.lists(cols, min_size=1, max_size=3, unique=True),
+                                  "build": st.sampled_from(["chunks", "chunks", "chunks", "d_mul", "d_mul", "d_slice", "d_concat", "d_copy"]), "obs": OBS})
 
 
 def campaign(col, tier, seed, shard, nshards):
